@@ -71,6 +71,15 @@ class Hist:
     def resp_err(self, i):
         return {"jsonrpc": "2.0", "id": self.wid(i), "error": {"code": -32000 - self.rng.randrange(5), "message": self.marker(i)}}
 
+    def ack(self, uid):
+        """the server's answer to an unsubscribe call: true, false, or an error object (e.g. subscription not found)"""
+        r = self.rng.random()
+        if r < 0.6:
+            return self.resp_ok(uid, val=True)
+        if r < 0.8:
+            return self.resp_ok(uid, val=False)
+        return self.resp_err(uid)
+
     def notif(self, nm, sid, val, err=False):
         return {"jsonrpc": "2.0", "method": nm, "params": {"subscription": sid, ("error" if err else "result"): val}}
 
@@ -234,7 +243,7 @@ class Hist:
         if not self.unacked:
             return
         uid = self.unacked.pop(self.rng.randrange(len(self.unacked)))
-        self.back(self.resp_ok(uid, val=True), what="unsub-ack", id=uid)
+        self.back(self.ack(uid), what="unsub-ack", id=uid)
 
     def misbehave(self):
         r = self.rng.random()
@@ -645,7 +654,7 @@ def ack_wire_unsubs(hists):
                 i = int(o["id"])
                 if i not in acked:
                     acked.add(i)
-                    H.back(H.resp_ok(i, val=True), what="unsub-ack", id=i)
+                    H.back(H.ack(i), what="unsub-ack", id=i)
 
 
 def run_histories(ctx, hists, oracles, tag="random"):
@@ -697,7 +706,7 @@ def run_histories(ctx, hists, oracles, tag="random"):
 def finish_cleanup(H):
     """append acks for every unsubscribe the history may have produced (used by C18 histories)"""
     for uid in list(H.unacked):
-        H.back(H.resp_ok(uid, val=True), what="unsub-ack", id=uid)
+        H.back(H.ack(uid), what="unsub-ack", id=uid)
     H.unacked = []
 
 
@@ -979,7 +988,7 @@ def c18_cycle_history(rng, reps, kinds=None):
                     H.add("drop %d" % h, kind="drop", sh=h, sid=s["sid"], uid=s["uid"])
                 else:
                     H.add("unsub %d %d" % (H.newh(), h), kind="unsub", sh=h, sid=s["sid"], uid=s["uid"])
-                H.back(H.resp_ok(s["uid"], val=True), what="unsub-ack", id=s["uid"])
+                H.back(H.ack(s["uid"]), what="unsub-ack", id=s["uid"])
         elif k == "subm":
             H.op_subm(); h = H.h
             me = H.methods.pop(h)
